@@ -374,4 +374,11 @@ theorem revCipher : IsBlockCipher List.reverse List.reverse :=
   ⟨fun _ h => by simpa using h, fun _ h => by simpa using h, fun _ _ => List.reverse_reverse _,
    fun _ _ => List.reverse_reverse _⟩
 
+/-- a 20-byte "hash" for examples that needs more than the length: bytes 40..59 of the input, zero-filled — on a
+48-byte input the last 8 bytes (of the server nonce, in `new_nonce ‖ server_nonce`) -/
+def tailHash (x : Bytes) : Bytes := ((x.drop 40) ++ zeros 20).take 20
+
+theorem tailHash_length (x : Bytes) : (tailHash x).length = 20 := by
+  simp [tailHash]
+
 end Mtv.Ige
